@@ -12,6 +12,8 @@ slots are extracted from typed HIR:
                 from_utf8 over `u.peek_bytes(n)` of the *same* u with no consumption in between;
   loop-cap      `vec.push(..).unwrap()` in the closure of `u.arbitrary_loop(_, Some(N as u32), ..)`
                 on a fresh Vec<_, N>; `N.try_into::<u32>().unwrap()` for the instantiated N;
+  count-cap     `for _ in 0..len { vec.push(..).unwrap(); }` with `len = u.int_in_range(0..=N as u32)?` an immutable
+                binding, the push the only write to a fresh Vec<_, N> and not inside a further loop;
   transparent   `&*(bytes as *const [u8; N] as *const ByteArray<N>)`: ByteArray is
                 repr(transparent) over [u8; N] (cross-crate ADT table), the pointer comes from a
                 reference (non-null, align 1); the only reference to the private, lifetime-
@@ -198,8 +200,72 @@ def discharge_unwrap(F, fn, A, pm, node, inst):
                 pushes = [x for x in H.walk(fn["body"]) if x.get("callee") == "heapless::vec::Vec::<T, N>::push"]
                 if okmax and fresh and vty and vty.endswith(", %s>" % k[1]) and len(pushes) == 1:
                     return "loop-cap", "at most %s pushes into a fresh Vec<_, %s>" % (k[1], k[1])
+        r = counted_push(F, fn, A, pm, node, recv)
+        if r is not None:
+            return r
         return None, "push is not bounded by an arbitrary_loop maximum equal to the capacity"
     return None, "unwrap of an unrecognised fallible operation"
+
+
+def counted_push(F, fn, A, pm, node, recv):
+    """`let len = u.int_in_range(0..=<N as u32>)?; let mut vec = Vec::<_, N>::new(); for _ in 0..len { vec.push(..).unwrap(); }`:
+    a `for` over `0..len` runs its body len times, len <= N by the contract of int_in_range (the value drawn lies in the range), the
+    push is the only operation on the fresh vector and runs at most once per iteration: at most N pushes into capacity N."""
+    def cap_param(e):
+        e = H.strip(A.subst(e))
+        if e.get("k") == "mcall" and e.get("callee") == UNWRAP:
+            ti = H.strip(e["recv"])
+            if ti.get("callee") == TRY_INTO or (ti.get("callee") == "core::convert::TryFrom::try_from" and (ti.get("targs") or [""])[0] in ("u32", "usize", "u64")):
+                return const_or_lit(A, H.call_args(ti)[0])
+            return None
+        if e.get("k") == "cast" and (e.get("ty") or "") in ("u32", "u64", "usize"):
+            return const_or_lit(A, e["e"])
+        return const_or_lit(A, e)
+    loops, cur = [], node
+    for _ in range(60):
+        cur = pm.get(id(cur))
+        if cur is None:
+            break
+        if cur.get("k") == "closure":
+            return None
+        if cur.get("k") == "loop":
+            loops.append(cur)
+    fl = [f for f in H.for_loops(fn["body"]) if f["loop"] is not None and loops and f["loop"] is loops[0]]
+    if len(loops) != 1 or len(fl) != 1:
+        return None
+    it = H.strip(fl[0]["iter"])
+    if not (it.get("k") == "struct" and (it.get("res") or {}).get("path") == "core::ops::range::Range"):
+        return None
+    fields = {f["name"]: f["e"] for f in it["fields"]}
+    if H.lit(fields.get("start") or {}) != 0 or not re.match(r"^core::ops::range::Range<u(8|16|32|64|size)>$", it.get("ty") or ""):
+        return None
+    end = H.strip(fields["end"])
+    if not (end.get("k") == "path" and end["res"].get("rk") == "Local"):
+        return None
+    # `len` must be an immutable binding of the value drawn
+    lets = [x for x in H.walk(fn["body"]) if x.get("k") == "let" and x["pat"].get("k") == "bind" and x["pat"].get("id") == end["res"]["id"]]
+    if len(lets) != 1 or "Mut" in (lets[0]["pat"].get("mode") or "").split(",")[-1] or lets[0].get("init") is None:
+        return None, "the loop bound `%s` is not an immutable binding" % end["res"].get("name")
+    src = untry(lets[0]["init"])
+    if src is None or src.get("callee") != "arbitrary::unstructured::Unstructured::<'a>::int_in_range" or not src.get("args"):
+        return None, "the loop bound is not drawn with int_in_range"
+    rg = H.strip_block(src["args"][0])
+    if not (rg.get("k") == "call" and rg.get("callee") == "core::ops::range::RangeInclusive::<Idx>::new" and len(rg["args"]) == 2):
+        return None, "the loop bound is not drawn from an inclusive range"
+    k = cap_param(rg["args"][1])
+    if not (k and k[0] == "param"):
+        return None, "the largest count that can be drawn is not the capacity parameter"
+    vec_id = H.local_id(recv["recv"])
+    vlets = [x for x in H.walk(fn["body"]) if x.get("k") == "let" and x["pat"].get("k") == "bind" and x["pat"].get("id") == vec_id]
+    if len(vlets) != 1 or vlets[0].get("init") is None:
+        return None
+    fresh = (H.strip_block(vlets[0]["init"]).get("callee") or "").endswith("Vec::<T, N>::new")
+    vty = vlets[0]["pat"].get("ty") or ""
+    # every use of the vector: this push, and reads of the finished value outside the loop
+    writes = [x for x in H.walk(fn["body"]) if x.get("k") == "mcall" and H.local_id(x["recv"]) == vec_id and (x.get("callee") or "").split("::")[-1] not in ("len", "is_empty", "capacity", "is_full")]
+    if fresh and vty.endswith(", %s>" % k[1]) and writes == [recv]:
+        return "count-cap", "for _ in 0..len with len = int_in_range(0..=%s)?: at most %s pushes into a fresh Vec<_, %s>" % (k[1], k[1], k[1])
+    return None, "the counted loop pushes into a vector that is not fresh, has another capacity or is written elsewhere"
 
 
 def sym_fits_rule(F, fn, node):
@@ -401,7 +467,7 @@ def run(ctx):
                        "dereference, overflow/pointer assert and panic in reachable /repo instances; each discharged by a template over typed HIR slots (lengths vs capacities, dataflow on `u`, "
                        "repr(transparent) of the cast target, who-may-call for the lifetime-unconstrained helper, arm coverage of the derived selector).")
     ctx.rule = "obligation = MIR event in a reachable /repo instance (per monomorphic instance); distinct by (function, construct)"
-    ctx.trusted = ["arbitrary 1.4.2: Unstructured::bytes(n) returns exactly n bytes or Err, peek_bytes does not consume, arbitrary_loop honours max, choose_index(len) returns an index below len (Err for len == 0), derive(Arbitrary) expansion",
+    ctx.trusted = ["arbitrary 1.4.2: Unstructured::bytes(n) returns exactly n bytes or Err, peek_bytes does not consume, arbitrary_loop honours max, int_in_range(a..=b) returns a value in a..=b, choose_index(len) returns an index below len (Err for len == 0), derive(Arbitrary) expansion",
                    "heapless 0.7.17 / heapless-bytes 0.3.0 capacity checks", "serde_bytes 0.11.19 ByteArray layout (repr read from its ADT)"]
     for cfg, F in ctx.facts.items():
         roots = [r for r in F.mono["roots"] if "inst" in r and r["spec"].endswith("::arbitrary") and "impl arbitrary::Arbitrary<" in r["spec"]
@@ -416,8 +482,9 @@ def run(ctx):
         for r in roots:
             R = Reach(F, r["inst"])
             for inst in R.local:
-                if inst["def"].startswith("arbitrary::arbitrary_"):
-                    helpers.add(inst["def"].split("::{closure")[0])
+                hf = hir_fn_for(F, inst)
+                if hf is not None and (hf.get("sp") or "").startswith("src/arbitrary.rs"):
+                    helpers.add(hf["path"])
             for inst, ev, kind in R.obligations():
                 ob_id = (inst["name"], ev.get("sp"), kind, ev.get("kind"), str(ev.get("from", {}).get("s")), str(ev.get("to", {}).get("s")))
                 if ob_id in seen_ob:
@@ -526,8 +593,12 @@ def run(ctx):
             pan = [p for p in (dps or []) if p.done and p.done[0] == "panic"]
             ctx.oblige("C19|use|dispatch|no-panic|" + dpath, dps is not None and not pan,
                        "dispatching a generated request can panic in %s: %s when %s" % (dpath, (pan[0].done[1:] if pan else "?"), [S.show_atom(a) for a in pan[0].atoms][-2:] if pan else ""), cfg=cfg, where=dfn["sp"])
-        want_helpers = {"arbitrary::arbitrary_byte_array", "arbitrary::arbitrary_bytes", "arbitrary::arbitrary_vec", "arbitrary::arbitrary_str", "arbitrary::arbitrary_option", "arbitrary::arbitrary_key"}
-        ctx.oblige("C19|helpers", want_helpers <= helpers, "helper functions of src/arbitrary.rs not reachable from the roots: %s" % sorted(want_helpers - helpers), cfg=cfg, nontrivial=False)
+        # no hand-written generator code in src/arbitrary.rs escapes the analysis: every function of the file that draws from an
+        # Unstructured is reached from the three roots (size_hint and the like produce no value)
+        want_helpers = {f["path"] for f in F.fns if (f.get("sp") or "").startswith("src/arbitrary.rs") and (f.get("pv") or "user") == "user" and f.get("parent_fn") is None and f.get("body") is not None
+                        and any("Unstructured<" in (t or "") for t in (f.get("inputs") or []))}
+        ctx.oblige("C19|helpers", want_helpers <= helpers, "functions of src/arbitrary.rs not reachable from the roots: %s" % sorted(want_helpers - helpers), cfg=cfg, nontrivial=False)
+        ctx.floor("hand-written functions of src/arbitrary.rs reached from the roots", len(want_helpers & helpers), 3, cfg=cfg)
         # who-may-call for the lifetime-unconstrained helper
         refs = []
         for f in F.fns:
